@@ -2,8 +2,8 @@
 C12 round trip, part 2: path lemmas; an inline value `t.toVal` decodes to exactly `t.facts p`.
 -/
 import CueVerif.Spec.Toml
-open CueVerif.Toml.Spec
-namespace CueVerif.Toml
+open CueVerif.Toml CueVerif.Toml.Spec
+namespace CueVerif.Toml.Round
 
 /-- strict extension of a path -/
 def SExt (A k : Path) : Prop := ∃ x t, k = A ++ x :: t
@@ -190,4 +190,4 @@ theorem inl_fields : ∀ (fs : List (Name × Tree)) (rkey p : Path) (s : St),
       · exact .inr ⟨f', List.mem_cons_of_mem _ hf', hp⟩
 end
 
-end CueVerif.Toml
+end CueVerif.Toml.Round
